@@ -128,3 +128,260 @@ theorem sections_append_header (A : List Str) (hA : ∀ l ∈ A, isHeader l = fa
     simp [hA l (by simp)]
 
 end Reamber.Osu
+
+namespace Reamber.Osu
+
+/-! ### the `[Events]` block, reader side -/
+
+theorem readMeta_inert_block (m : Meta) (A rest : List Str) (hA : ∀ l ∈ A, Inert l) :
+    readMeta m (A ++ rest) = readMeta m rest := by
+  induction A with
+  | nil => rfl
+  | cons l t ih =>
+    show readMeta m (l :: (t ++ rest)) = _
+    rw [readMeta_step m m _ _ (metaStep_inert m l _ (hA l (by simp)))]
+    exact ih (fun l' hl' => hA l' (by simp [hl']))
+
+theorem readMeta_nil (m : Meta) : readMeta m [] = .ok m := rfl
+
+theorem inert_nil : Inert [] := by
+  refine ⟨?_, ?_, ?_⟩ <;> decide +kernel
+
+/-- no key of the table and none of the markers starts with `0`; none has `,` as 7th character -/
+theorem metaKeys_shape : ∀ k ∈ metaKeys, k[6]? ≠ some ',' ∧ k.head? ≠ some '0' := by decide +kernel
+
+theorem inert_of_head0 (t : Str) : Inert ('0' :: t) := by
+  have hk : keyOf ('0' :: t) = '0' :: (split1 ':' t).1 := by
+    unfold keyOf; rw [split1, if_neg (by decide +kernel)]
+  refine ⟨?_, ?_, ?_⟩
+  · intro hm
+    have := (metaKeys_shape _ hm).2
+    rw [hk] at this; exact this rfl
+  · rw [hk]; intro h
+    have : ('0' :: (split1 ':' t).1).head? = some '0' := rfl
+    rw [h] at this; revert this; decide +kernel
+  · rw [hk]; intro h
+    have : ('0' :: (split1 ':' t).1).head? = some '0' := rfl
+    rw [h] at this; revert this; decide +kernel
+
+theorem inert_of_sample_prefix (x : Str) : Inert ("Sample,".toList ++ x) := by
+  have hsp := split1_append_noSep ':' "Sample,".toList x (by decide +kernel)
+  have hk : keyOf ("Sample,".toList ++ x) = "Sample,".toList ++ (split1 ':' x).1 := by
+    unfold keyOf; rw [hsp]
+  have h6 : ∀ y : Str, ("Sample,".toList ++ y)[6]? = some ',' := by intro y; rfl
+  have h0 : ∀ y : Str, ("Sample,".toList ++ y).head? = some 'S' := by intro y; rfl
+  refine ⟨?_, ?_, ?_⟩
+  · intro hm
+    have := (metaKeys_shape _ hm).1
+    rw [hk, h6] at this; exact this rfl
+  · rw [hk]; intro h
+    have := h0 (split1 ':' x).1
+    rw [h] at this; revert this; decide +kernel
+  · rw [hk]; intro h
+    have := h0 (split1 ':' x).1
+    rw [h] at this; revert this; decide +kernel
+
+theorem sampleOk_prefix (l : Str) (h : SampleOk l) : ∃ x, l = "Sample,".toList ++ x := by
+  obtain ⟨ft, fl, f, fv, hs⟩ := h
+  have := joinWith_splitOn ',' l
+  rw [hs] at this
+  exact ⟨joinWith ',' [ft, fl, f, fv], by rw [← this]; simp [joinWith]⟩
+
+theorem inert_sample_or_blank (l : Str) (h : l = [] ∨ SampleOk l) : Inert l := by
+  rcases h with rfl | h
+  · exact inert_nil
+  · obtain ⟨x, rfl⟩ := sampleOk_prefix l h
+    exact inert_of_sample_prefix x
+
+theorem findC_append (c : Char) (a b : Str) (h : c ∉ a) : findC c (a ++ c :: b) = (a.length : Int) := by
+  induction a with
+  | nil => simp [findC]
+  | cons x xs ih =>
+    have hx : x ≠ c := fun e => h (by simp [e])
+    have hxs : c ∉ xs := fun e => h (by simp [e])
+    show findC c (x :: (xs ++ c :: b)) = _
+    rw [findC, if_neg hx, ih hxs]
+    simp
+
+/-- `line[line.find('"') + 1 : line.rfind('"')]` of a background line of the dialect is the file name -/
+theorem quoted_of_bgOk (bgl name : Str) (h : BgOk bgl name) : quoted bgl = name := by
+  obtain ⟨tail, rfl, hq, _, hqt, _⟩ := h
+  have hf : findC '"' ("0,0,\"".toList ++ name ++ '"' :: tail) = 4 := by
+    have : "0,0,\"".toList ++ name ++ '"' :: tail = "0,0,".toList ++ '"' :: (name ++ '"' :: tail) := by simp
+    rw [this, findC_append '"' "0,0,".toList _ (by decide +kernel)]; rfl
+  have hrev : ("0,0,\"".toList ++ name ++ '"' :: tail).reverse = tail.reverse ++ '"' :: (name.reverse ++ "\",0,0".toList) := by
+    simp
+  have hr : rfindC '"' ("0,0,\"".toList ++ name ++ '"' :: tail) = (name.length : Int) + 5 := by
+    unfold rfindC
+    rw [hrev, findC_append '"' tail.reverse _ (by simpa using hqt)]
+    simp; omega
+  unfold quoted
+  rw [hf, hr]
+  have hlen : ("0,0,\"".toList ++ name ++ '"' :: tail).length = name.length + tail.length + 6 := by simp; omega
+  unfold pySlice sliceIx
+  rw [hlen]
+  have n1 : ¬ ((4 : Int) + 1 < 0) := by omega
+  have n2 : ¬ ((name.length : Int) + 5 < 0) := by omega
+  simp only [if_neg n1, if_neg n2]
+  have t1 : ((4 : Int) + 1).toNat = 5 := rfl
+  have t2 : ((name.length : Int) + 5).toNat = name.length + 5 := by omega
+  rw [t1, t2]
+  have m1 : min 5 (name.length + tail.length + 6) = 5 := by omega
+  have m2 : min (name.length + 5) (name.length + tail.length + 6) = name.length + 5 := by omega
+  rw [m1, m2]
+  have : "0,0,\"".toList ++ name ++ '"' :: tail = ("0,0,\"".toList ++ name) ++ '"' :: tail := by simp
+  rw [this, List.take_left' (by simp), List.drop_left' (by decide +kernel)]
+
+theorem bgOk_head (bgl name : Str) (h : BgOk bgl name) : ∃ t, bgl = '0' :: t := by
+  obtain ⟨tail, rfl, _⟩ := h
+  exact ⟨",0,\"".toList ++ name ++ '"' :: tail, by simp⟩
+
+/-- the `[Events]` block under the scanning loop: the background name from the line after its marker, the samples
+from the lines after theirs, nothing else -/
+theorem readMeta_events (m : Meta) (A B S : List Str) (bgl name : Str) (ss : List Sample)
+    (hA : ∀ l ∈ A, Inert l) (hbg : BgOk bgl name) (hB : ∀ l ∈ B, Inert l) (hS : ∀ l ∈ S, l = [] ∨ SampleOk l)
+    (hss : mapE readSample (S.filter (startsWith pSample)) = .ok ss) :
+    readMeta m (A ++ kBackground :: bgl :: (B ++ kSamples :: S)) =
+      .ok { m with backgroundFileName := name, samples := ss } := by
+  obtain ⟨t, hbt⟩ := bgOk_head bgl name hbg
+  rw [readMeta_inert_block m A _ hA]
+  rw [readMeta_step _ _ _ _ (metaStep_background _ _ _), quoted_of_bgOk bgl name hbg]
+  rw [readMeta_step _ _ _ _ (metaStep_inert _ bgl _ (by rw [hbt]; exact inert_of_head0 t))]
+  rw [readMeta_inert_block _ B _ hB]
+  rw [readMeta_step _ _ _ _ (metaStep_samples _ _ _ hss)]
+  have := readMeta_inert_block { { m with backgroundFileName := name } with samples := ss } S []
+    (fun l hl => inert_sample_or_blank l (hS l hl))
+  rw [List.append_nil] at this
+  rw [this]; rfl
+
+end Reamber.Osu
+
+namespace Reamber.Osu
+
+/-! ### the `[Events]` block, by the book -/
+
+theorem filterMapE_append {α β} (f : α → Except Err (Option β)) (A B : List α) :
+    filterMapE f (A ++ B) =
+      match filterMapE f A with
+      | .error e => .error e
+      | .ok ra => match filterMapE f B with
+        | .error e => .error e
+        | .ok rb => .ok (ra ++ rb) := by
+  induction A with
+  | nil => simp only [List.nil_append, filterMapE]; cases filterMapE f B <;> rfl
+  | cons a t ih =>
+    show filterMapE f (a :: (t ++ B)) = _
+    rw [filterMapE, ih, filterMapE]
+    cases f a with
+    | error e => rfl
+    | ok o =>
+      cases filterMapE f t with
+      | error e => rfl
+      | ok ra =>
+        cases filterMapE f B with
+        | error e => rfl
+        | ok rb => cases o <;> rfl
+
+theorem filterMapE_none {α β} (f : α → Except Err (Option β)) (A : List α) (h : ∀ a ∈ A, f a = .ok none) :
+    filterMapE f A = .ok [] := by
+  induction A with
+  | nil => rfl
+  | cons a t ih =>
+    rw [filterMapE, h a (by simp), ih (fun a' ha' => h a' (by simp [ha']))]
+
+theorem denoteSample_eq_readSample (l : Str) (h : SampleOk l) : denoteSample l = (readSample l).map some := by
+  obtain ⟨ft, fl, f, fv, hs⟩ := h
+  unfold denoteSample readSample
+  simp only [hs]
+  rcases readFloat_cases ft with ⟨v1, e1⟩ | e1 <;> rcases readInt_cases fv with ⟨v2, e2⟩ | e2 <;>
+    simp [e1, e2, bind, Except.bind, pure, Except.pure, Except.map]
+
+theorem filterMapE_denoteSample (L : List Str) (h : ∀ l ∈ L, SampleOk l) :
+    filterMapE denoteSample L = mapE readSample L := by
+  induction L with
+  | nil => rfl
+  | cons l t ih =>
+    rw [filterMapE, mapE, denoteSample_eq_readSample l (h l (by simp)), ih (fun l' hl' => h l' (by simp [hl']))]
+    cases readSample l with
+    | error e => rfl
+    | ok s => simp only [Except.map]; cases mapE readSample t <;> rfl
+
+theorem sampleOk_facts (l : Str) (h : SampleOk l) :
+    startsWith pSample l = true ∧ l ≠ [] ∧ isComment l = false ∧ isHeader l = false := by
+  obtain ⟨x, rfl⟩ := sampleOk_prefix l h
+  refine ⟨rfl, by simp, rfl, ?_⟩
+  unfold isHeader
+  have : ("Sample,".toList ++ x).head? = some 'S' := rfl
+  rw [this]; rfl
+
+/-- among blank lines and sample events, the three selections coincide -/
+theorem sample_filters (S : List Str) (hS : ∀ l ∈ S, l = [] ∨ SampleOk l) :
+    S.filter (startsWith pSample) = (S.filter (fun l => decide (l ≠ []))).filter (fun l => !isComment l) ∧
+    ∀ l ∈ S.filter (startsWith pSample), SampleOk l := by
+  induction S with
+  | nil => exact ⟨rfl, by simp⟩
+  | cons l t ih =>
+    obtain ⟨i1, i2⟩ := ih (fun l' hl' => hS l' (by simp [hl']))
+    rcases hS l (by simp) with rfl | hl
+    · have : startsWith pSample [] = false := rfl
+      simp only [List.filter_cons, this, ne_eq, not_true_eq_false, decide_false, Bool.false_eq_true, if_false]
+      exact ⟨i1, i2⟩
+    · obtain ⟨f1, f2, f3, _⟩ := sampleOk_facts l hl
+      simp only [List.filter_cons, f1, if_true, ne_eq, f2, not_false_eq_true, decide_true, f3, Bool.not_false]
+      refine ⟨by rw [i1], ?_⟩
+      intro l' hl'
+      simp only [List.mem_cons] at hl'
+      rcases hl' with rfl | hl'
+      · exact hl
+      · exact i2 l' hl'
+
+theorem denoteBackground_skip (A rest : List Str)
+    (h : ∀ l ∈ A, ∀ ty a f r, splitOn ',' l = ty :: a :: f :: r → ty ≠ ['0']) :
+    denoteBackground (A ++ rest) = denoteBackground rest := by
+  induction A with
+  | nil => rfl
+  | cons l t ih =>
+    show denoteBackground (l :: (t ++ rest)) = _
+    have ih' := ih (fun l' hl' => h l' (by simp [hl']))
+    rw [denoteBackground]
+    rcases hs : splitOn ',' l with _ | ⟨ty, _ | ⟨a, _ | ⟨f, r⟩⟩⟩
+    · simpa using ih'
+    · simpa using ih'
+    · simpa using ih'
+    · have := h l (by simp) ty a f r hs
+      simp only [if_neg this]; exact ih'
+
+theorem split_bgOk (bgl name : Str) (h : BgOk bgl name) :
+    ∃ r, splitOn ',' bgl = ['0'] :: ['0'] :: ('"' :: (name ++ ['"'])) :: r := by
+  obtain ⟨tail, rfl, _, hc, _, ht⟩ := h
+  have e : "0,0,\"".toList ++ name ++ '"' :: tail = ['0'] ++ ',' :: (['0'] ++ ',' :: (('"' :: (name ++ ['"'])) ++ tail)) := by
+    simp
+  rw [e, splitOn_append_sep ',' ['0'] _ (by decide +kernel), splitOn_append_sep ',' ['0'] _ (by decide +kernel)]
+  have hf : ',' ∉ ('"' :: (name ++ ['"'])) := by
+    simp only [List.mem_cons, List.mem_append, List.mem_singleton, not_or]
+    exact ⟨by decide +kernel, hc, by decide +kernel⟩
+  rcases ht with rfl | ht
+  · rw [List.append_nil, splitOn_noSep ',' _ hf]; exact ⟨[], rfl⟩
+  · cases tail with
+    | nil => simp at ht
+    | cons c t' =>
+      simp only [List.head?_cons, Option.some.injEq] at ht
+      subst ht
+      rw [splitOn_append_sep ',' _ t' hf]; exact ⟨_, rfl⟩
+
+theorem denoteBackground_bg (bgl name : Str) (rest : List Str) (h : BgOk bgl name) :
+    denoteBackground (bgl :: rest) = some name := by
+  obtain ⟨r, hs⟩ := split_bgOk bgl name h
+  rw [denoteBackground, hs]
+  have hl : ('"' :: (name ++ ['"'])).getLast? = some '"' := by
+    have : '"' :: (name ++ ['"']) = ('"' :: name) ++ ['"'] := rfl
+    rw [this, List.getLast?_append]; rfl
+  simp [hl]
+
+theorem denoteSample_bg (bgl name : Str) (h : BgOk bgl name) : denoteSample bgl = .ok none := by
+  obtain ⟨r, hs⟩ := split_bgOk bgl name h
+  unfold denoteSample
+  rw [hs]
+  rcases r with _ | ⟨x, _ | ⟨y, _ | ⟨z, w⟩⟩⟩ <;> simp
+
+end Reamber.Osu
